@@ -248,3 +248,65 @@ pub fn subst_text(s: &Solution<ChalkIr>) -> String {
         _ => String::new(),
     }
 }
+
+/// static over-approximation: the program's dependency graph between (coinductive/auto trait, type
+/// constructor) pairs — impl where-clauses and auto-trait field rules — has a cycle
+pub fn program_has_co_cycle(p: &Program) -> bool {
+    let ctor_of = |t: &Ty| -> Option<usize> {
+        match t {
+            Ty::Adt(c, _) => Some(*c),
+            _ => None,
+        }
+    };
+    let nc = p.ctors.len();
+    // node = ctor index (traits merged: over-approximation), plus one node for "any type" (blanket)
+    let any = nc;
+    let mut succ: Vec<Vec<usize>> = vec![vec![]; nc + 1];
+    let co = |tr: usize| p.traits[tr].kind != TraitKind::Inductive;
+    for im in &p.impls {
+        if !co(im.head.tr) {
+            continue;
+        }
+        let from = ctor_of(&im.head.args[0]).unwrap_or(any);
+        for w in &im.wcs {
+            if co(w.tr) {
+                succ[from].push(ctor_of(&w.args[0]).unwrap_or(any));
+            }
+        }
+    }
+    if p.traits.iter().any(|t| t.kind == TraitKind::Auto) {
+        for (ci, c) in p.ctors.iter().enumerate() {
+            for f in c.all_fields() {
+                fn heads(t: &Ty, out: &mut Vec<usize>) {
+                    if let Ty::Adt(c, a) = t {
+                        out.push(*c);
+                        a.iter().for_each(|x| heads(x, out));
+                    }
+                }
+                let mut hs = vec![];
+                heads(f, &mut hs);
+                succ[ci].extend(hs);
+            }
+        }
+    }
+    // "any" reaches and is reached by everything
+    for i in 0..nc {
+        if succ[i].contains(&any) || !succ[any].is_empty() {
+            succ[any].push(i);
+        }
+    }
+    for s in 0..=nc {
+        let mut stack = succ[s].clone();
+        let mut vis = vec![false; nc + 1];
+        while let Some(n) = stack.pop() {
+            if n == s {
+                return true;
+            }
+            if !vis[n] {
+                vis[n] = true;
+                stack.extend(succ[n].iter().copied());
+            }
+        }
+    }
+    false
+}
